@@ -221,8 +221,8 @@ PROPS["C12"] = dict(
 
 
 def extra_C15(prog, impl, monline):
-    # the harness prints ... 0) when the body mirror of a FunctionDeclaration instruction is not the
-    # conversion of a declaration of that name
+    # the harness prints ... 0) when the body mirror of a FunctionDeclaration instruction, printed from
+    # the semantic types, is not the source text of a function of the program (harness/src/mirror.rs)
     for m in re.finditer(r"\(FunctionDeclaration ", impl):
         depth, j = 0, m.start()
         while j < len(impl):
@@ -248,7 +248,7 @@ PROPS["C15"] = dict(
          "least three top-level declarations and either a duplicate-name or type-not-found diagnostic or >= 2 registered "
          "kinds of entities; distinct = distinct program texts",
     nontrivial=lambda prog, out, monline="": out.count("(FunctionDeclaration ") + out.count("(Constant (") + out.count("(Types (") >= 3,
-    assumptions=["the body mirror inside FunctionDeclaration instructions is compared in place by the harness (body-ok flag), not modelled"],
+    assumptions=["the body mirror inside FunctionDeclaration instructions is not in the Coq model: the harness prints it from the semantic types and compares it with the function's source text printed independently (body-ok flag)"],
 )
 
 
@@ -608,8 +608,8 @@ def known_C05(prog, impl, monline, mname):
 PENDING["C05"] = dict(
     title="The instruction stack preserves the program's control flow",
     projection="stacks",
-    extra_files=["C05b"],
-    monitors=[("C05q", "accepted_wf"), ("C05i", "accepted_wf"), ("C10r", "accepted_wf")],
+    extra_files=["C05b", "C05c", "C05d", "C05e"],
+    monitors=[("C05q", "accepted_wf"), ("C05i", "accepted_wf"), ("C10r", "accepted_wf"), ("C05v", "accepted_wf")],
     known_class=known_C05,
     domain="accepted_wf",
     rule="accepted, well-formed programs; flat execution of the implementation's root stack against structured execution of "
@@ -918,6 +918,8 @@ def judge(prop, prog, impl, model, monline):
     spec = PROPS[prop]
     agree = True
     where = ""
+    if impl.startswith("(notrun"):
+        return {"agree": False, "where": "not run: the implementation hangs on other programs of the shard", "monitor": None}
     if impl.startswith("(nobuild"):
         # the harness could not even build the program (the library's codec refuses an identifier):
         # nothing was observed for this program, for any property
